@@ -306,9 +306,10 @@ theorem guarded_equiv (f : Abs → Int) (s : Store) (x : Ref) (hx : Sep s x) :
 /-- **The annotation whitelist, per function and per column, against the source.**  Every write through the first
 parameter that the translator finds in a public function taking no `inplace` / `copy` flag (183 functions scanned in the
 baseline) is a documented annotation of that very function (`documented`: one node-table column per analysis function,
-`compartment` / `fragment` under the documented `label(s)_only` option), an `open` defect of known_findings/C03.json
-(`knownDefects`), or a write into caller-built records that are not neurons (`notANeuron`).  `decide` over the complete
-generated list: a new write to an input anywhere in the catalogue makes this theorem fail; a repaired defect does not. -/
+`compartment` / `fragment` under the documented `label(s)_only` option) or a write into caller-built records that are not
+neurons (`notANeuron`).  No exceptions: the three undocumented writes found by this scan (`split_into_fragments`,
+`persistence_points`, `average_skeletons`) are repaired in navis.  `decide` over the complete generated list: a new write to an
+input anywhere in the catalogue makes this theorem fail. -/
 theorem input_writes_whitelisted : ∀ w ∈ Navis.Gen.InputWrites.inputWrites, Navis.InputWrites.allowed w = true := by decide
 
 /-- the scan is not vacuous: it covers the catalogue -/
@@ -339,8 +340,9 @@ theorem deep1_input_unchanged (s : Navis.HeapDeep.Store) (r : Nat) (es : List Ed
 
 open Navis.HeapDeep in
 /-- **a one-level copy of a two-level attribute leaks** (`copy.copy` of a dict of lists / a list of arrays): one in-place
-edit of an inner container of the copy changes the input's observable content.  This was the shared-tag-lists defect
-(repaired) and still is the situation of the cached `_segments` / `_small_segments` lists (open finding). -/
+edit of an inner container of the copy changes the input's observable content.  HISTORICAL witnesses: the shared-tag-lists
+defect and the shared arrays of the cached `_segments` / `_small_segments` lists (both repaired in navis: `TreeNeuron.copy`
+now copies all three two levels deep, see `nested_copied_two_levels`). -/
 theorem shallow_copy_leaks (s : Navis.HeapDeep.Store) (r i k : Nat) (v : Int) (hw : wfB s r = true)
     (hk : (kidsOf s r)[i]? = some k) (hv : leafVal s k ≠ v) :
     absOf (wrInner (shallow s r).1 (shallow s r).2 i v) r ≠ absOf s r :=
@@ -358,6 +360,23 @@ theorem tags_no_leak (s : Navis.HeapDeep.Store) (r : Nat) (es : List Edit) :
       (applyEdits (copyWith e.2.2 s r).1 (copyWith e.2.2 s r).2 es).take s.length = s := by
   intro e he ht
   rw [tags_copied_two_levels e he ht]
+  exact (deep1_no_leak s r es).1
+
+/-- **The generated table: every two-level attribute of a `TreeNeuron` — `tags` and the cached segment lists `_segments`,
+`_small_segments` — is copied two levels deep** by `TreeNeuron.copy` in the current source. -/
+theorem nested_copied_two_levels :
+    (∀ e ∈ Navis.Gen.CopySpec.nestedMode, e.2.2 = Navis.HeapDeep.CopyMode.deep1) ∧
+    ("TreeNeuron", "_segments", Navis.HeapDeep.CopyMode.deep1) ∈ Navis.Gen.CopySpec.nestedMode ∧
+    ("TreeNeuron", "_small_segments", Navis.HeapDeep.CopyMode.deep1) ∈ Navis.Gen.CopySpec.nestedMode := by decide
+
+open Navis.HeapDeep in
+/-- Hence edits made through the result's tag dictionary or cached segment lists — in-place edits of a tag list / a segment
+array, added or deleted entries — never reach the input's. -/
+theorem nested_no_leak (s : Navis.HeapDeep.Store) (r : Nat) (es : List Edit) :
+    ∀ e ∈ Navis.Gen.CopySpec.nestedMode,
+      (applyEdits (copyWith e.2.2 s r).1 (copyWith e.2.2 s r).2 es).take s.length = s := by
+  intro e he
+  rw [nested_copied_two_levels.1 e he]
   exact (deep1_no_leak s r es).1
 
 /-- **Every `copy()` method copies every attribute** (applies `copy.copy` / `copy.deepcopy` / the function chosen by the
